@@ -137,9 +137,9 @@ def check_pair_utils(case, rec):
 
 def check_nndist(case, rec):
     seq, ref, maxdist = case["seq"], case["reference"], case["maxdist"]
-    true = min(O.ham(seq, r) for r in ref)
+    true = min((O.ham(seq, r) for r in ref), default=O.INF)   # other-length strings are never Hamming neighbours
     want = min(true, maxdist)
-    rec.note(case, 1 <= true <= 4, [f"true={min(true, 6)}", f"maxdist={maxdist}"])
+    rec.note(case, 1 <= true <= 4 or true == O.INF, [f"true={min(true, 6)}", f"maxdist={maxdist}", "short_seq" if len(seq) < maxdist else "seq>=maxdist"])
     got = call("nndist_hamming", D.nndist_hamming, seq, set(ref), maxdist=maxdist)
     if int(got) != want:
         raise Violation("nndist_hamming", f"nndist_hamming({seq!r}, {ref}, maxdist={maxdist}) = {got!r}, expected min({true}, {maxdist})")
@@ -225,7 +225,22 @@ def nndist_case(draw, tier="quick"):
             others = [a for a in G.AA if a != seq[p]]
             s[p] = draw(st.sampled_from(others))
         ref.append("".join(s))
+    mode = draw(st.sampled_from(["near", "near", "near", "empty", "other_lengths", "mixed"]))
+    if mode == "empty":
+        ref = []
+    elif mode == "other_lengths":
+        ref = [r + "A" for r in ref] + [r[:-1] for r in ref]
+    elif mode == "mixed":
+        ref = ref + [ref[0] + "C", seq[:-1]]
     return {"seq": seq, "reference": ref, "maxdist": draw(st.integers(1, 4))}
+
+
+def enum_nndist_short(tier):
+    # short queries against empty / other-length / far reference sets, every maxdist
+    for seq in ("A", "AC", "CAS", "CASS"):
+        for ref in ([], [seq + "A"], ["W" * len(seq)], [seq[:-1]], ["W" * len(seq), seq + "AA"]):
+            for md in (1, 2, 3, 4):
+                yield {"seq": seq, "reference": ref, "maxdist": md}
 
 
 def enum_nndist(tier):
@@ -245,6 +260,7 @@ SUBS = [
     Sub("ham_exhaustive", check_ham_neighbors, enum=enum_ham),
     Sub("next_exhaustive", check_next_nearest, enum=enum_next),
     Sub("nndist_exhaustive", check_nndist, enum=enum_nndist),
+    Sub("nndist_short", check_nndist, enum=enum_nndist_short),
     Sub("lev_random", check_lev_neighbors, strategy=lambda t: lev_random(t), budget=(1500, 15000)),
     Sub("ham_random", check_ham_neighbors, strategy=lambda t: ham_random(t), budget=(1000, 10000)),
     Sub("pair_utils", check_pair_utils, strategy=lambda t: pair_case(t), budget=(1500, 15000)),
